@@ -1024,6 +1024,10 @@ def replay(path):
     if v.get("cmd") in ("trace-core", "trace-binary"):
         return replay_trace(path, v)
     r = subprocess.run([HV, "replay-one", "--file", path])
+    if r.returncode == 101:
+        # an uncaught Rust panic of the harness itself (e.g. a replay file it cannot read), not an outcome of the code under test
+        log("TOOL-ERROR: hv replay-one panicked (run it with HV_PANIC_VERBOSE=1 RUST_BACKTRACE=1 to see where)")
+        return 2
     if r.returncode not in (0, 1, 2):
         # the replayed case kills the process (abort / stack overflow in the code under test): that IS the recorded outcome
         log("reproduced: the process replaying the case died (signal / abort)")
